@@ -12,6 +12,7 @@ package c07
 
 import (
 	"fmt"
+	"reflect"
 	"sort"
 )
 
@@ -216,12 +217,13 @@ func (r *staticRef) concreteMustNot() []conn {
 // ---- simulation of one run -----------------------------------------------------
 
 type flow struct {
-	val     any
-	st      int    // static type: of the last typed producer, or the inferred type of the last typed pass-through
-	via     bool   // crossed a pass-through since the last typed producer
-	multi   bool   // in Stream mode this value arrives as several chunks (fan-in of keyed outputs / mapped fields)
-	to      string // arrives through a field mapping into this field of the target's input ("" = as the whole input)
-	lenient bool   // taken by a field mapping: eino checks it with Go's assignability, not with a type assertion
+	val      any
+	st       int    // static type: of the last typed producer, or the inferred type of the last typed pass-through
+	via      bool   // crossed a pass-through since the last typed producer
+	multi    bool   // in Stream mode this value arrives as several chunks (fan-in of keyed outputs / mapped fields)
+	to       string // arrives through a field mapping into this field of the target's input ("" = as the whole input)
+	lenient  bool   // taken by a field mapping: eino checks it with Go's assignability, not with a type assertion
+	dataOnly bool   // workflow: the data connection from a branch's source to an end the branch did not choose
 }
 
 type simFail struct {
@@ -241,6 +243,7 @@ type simResult struct {
 	UnjudgedStream string // only the Stream run cannot be judged (needs a concat of non-map chunks)
 	Skip           string // the run is not made at all (a nil value would be the graph's final output)
 	Fails          []simFail
+	Soft           []simFail // mismatches at data connections towards workflow branch ends that were not chosen: an ordinary error and success are both acceptable
 	Out            any
 	Reached        bool
 	Exec           []string // typed + pass-through nodes expected to execute (sorted)
@@ -264,7 +267,12 @@ func (m *simulator) check(f flow, to int, kind, at string, onPass bool) bool {
 	}
 	if f.lenient {
 		// eino's field-mapping checker: reflect's AssignableTo (twins pass), a nil value passes for every nillable kind
-		if f.val == nil || goAssignable(f.val, to) {
+		nillable := false
+		switch rtypes[to].Kind() {
+		case reflect.Map, reflect.Slice, reflect.Ptr:
+			nillable = true
+		}
+		if (f.val == nil && nillable) || (f.val != nil && goAssignable(f.val, to)) {
 			if m.res.Unjudged == "" {
 				m.res.Unjudged = fmt.Sprintf("a %s value taken by a field mapping for a %s at %s %s: outside the type-assertion lattice", dynName(f.val), typeNames[to], kind, at)
 			}
@@ -310,36 +318,108 @@ func (m *simulator) emit(u string, f flow, onPass bool) {
 		if c.From != u {
 			continue
 		}
-		ti := 0
+		chosen := 0
 		if c.Branch {
-			ti = m.p.choice[c.Group] % len(c.To)
+			chosen = m.p.choice[c.Group] % len(c.To)
 		}
-		t := c.To[ti]
-		if sent[t] {
-			continue
-		}
-		sent[t] = true
-		g := f
-		if mp := c.mapping(ti); !mp.empty() {
-			if mp.From != "" {
-				ft, ok := fieldType(f.st, mp.From, false)
-				if !ok {
-					m.badPath(t, fmt.Sprintf("%s has no field %q", typeNames[f.st], mp.From))
-					continue
-				}
-				v, have := takeField(f.val, mp.From)
-				if !have {
-					if m.res.Unjudged == "" {
-						m.res.Unjudged = fmt.Sprintf("mapped key %q missing in the value of %s", mp.From, u)
-					}
-					continue
-				}
-				g = flow{val: v, st: ft, lenient: true}
+		for ti, t := range c.To {
+			if ti != chosen && !(c.Branch && m.s.Front == feWorkflow) {
+				continue
 			}
-			g.to = mp.To
-			g.lenient = true
+			if sent[t] {
+				continue
+			}
+			sent[t] = true
+			g, ok := m.across(c, ti, f, u)
+			if !ok {
+				continue
+			}
+			// a workflow branch only selects who runs: the data connection from its source to
+			// an end that was NOT chosen exists all the same (dataOnly: it does not make the end run)
+			g.dataOnly = ti != chosen
+			m.arr[t] = append(m.arr[t], g)
 		}
-		m.arr[t] = append(m.arr[t], g)
+	}
+}
+
+// active: does any of the arrivals make the node run? If not, the data connections
+// into it are still there: in value form eino checks the values on them (and fails
+// the run), in stream form nobody reads the checked streams: both outcomes are
+// accepted (Soft), a panic is not.
+func (m *simulator) active(t string, fl []flow) bool {
+	for _, f := range fl {
+		if !f.dataOnly {
+			return true
+		}
+	}
+	n0 := len(m.res.Fails)
+	for _, f := range fl {
+		m.dryArrive(t, f)
+	}
+	m.res.Soft = append(m.res.Soft, m.res.Fails[n0:]...)
+	m.res.Fails = m.res.Fails[:n0]
+	return false
+}
+
+// across: what travels over the data connection From→To[ti] of call c when f leaves u
+// (a field mapping takes a part of it and/or names the field of the target it goes to).
+func (m *simulator) across(c *Call, ti int, f flow, u string) (flow, bool) {
+	g := f
+	mp := c.mapping(ti)
+	if mp.empty() {
+		return g, true
+	}
+	t := c.To[ti]
+	if mp.From != "" {
+		ft, ok := fieldType(f.st, mp.From, false)
+		if !ok {
+			m.badPath(t, fmt.Sprintf("%s has no field %q", typeNames[f.st], mp.From))
+			return g, false
+		}
+		v, have := takeField(f.val, mp.From)
+		if !have {
+			if m.res.Unjudged == "" {
+				m.res.Unjudged = fmt.Sprintf("mapped key %q missing in the value of %s", mp.From, u)
+			}
+			return g, false
+		}
+		g = flow{val: v, st: ft}
+	}
+	g.to = mp.To
+	g.lenient = true
+	return g, true
+}
+
+// portOf: the declared type a value arriving at t as a whole is checked against (-1: none).
+func (m *simulator) portOf(t string) (int, string) {
+	if t == END {
+		return m.s.GO, "graph-output"
+	}
+	n := m.s.node(t)
+	if p := n.inPort(); p >= 0 {
+		return p, "node-input"
+	}
+	if pt, ok := m.ptype[t]; ok && pt >= 0 {
+		return pt, "passthrough-input"
+	}
+	return -1, "passthrough-input"
+}
+
+// dryArrive: the checks on the connection into t, without t running.
+func (m *simulator) dryArrive(t string, g flow) {
+	port, kind := m.portOf(t)
+	if g.to != "" {
+		tin := m.s.targetInPort(t)
+		tt, ok := fieldType(tin, g.to, true)
+		if !ok {
+			m.badPath(t, fmt.Sprintf("%s has no field %q", typeNames[tin], g.to))
+			return
+		}
+		m.check(g, tt, "field-mapping", t, false)
+		return
+	}
+	if port >= 0 {
+		m.check(g, port, kind, t, false)
 	}
 }
 
@@ -457,6 +537,9 @@ func simulate(s *Spec, p *runParams, input any, ptype map[string]int) *simResult
 		if res.Unjudged != "" {
 			return res
 		}
+		if !m.active(n.Key, fl) {
+			continue
+		}
 		pass := n.Kind == kPass
 		// the declared type of the node's inside: a lambda's input type, the (inferred,
 		// reported) type of a pass-through node or -1
@@ -530,7 +613,7 @@ func simulate(s *Spec, p *runParams, input any, ptype map[string]int) *simResult
 				continue
 			}
 		}
-		if n.Kind == kInv {
+		if n.Kind == kInv || n.Kind == kSub {
 			m.needConcat(f, portIn, "invokable node "+n.Key)
 		}
 		if n.InKey != "" {
@@ -595,7 +678,7 @@ func simulate(s *Spec, p *runParams, input any, ptype map[string]int) *simResult
 			res.Skip = "a nil value would be delivered to END as the final output"
 		}
 	}
-	if len(fl) > 0 {
+	if len(fl) > 0 && m.active(END, fl) {
 		var f flow
 		ok := true
 		if anyMapped(fl) {
